@@ -1006,13 +1006,18 @@ def _run_include(case):
     return _run(case, 'include-once')
 
 
-def _run_cli_order(case):
-    # precondition of the real caller: the molecules the CLI sorts carry an atom id on every atom or on none
+def _cli_order_case(case):
+    """Precondition of the real caller: the molecules the CLI sorts carry an atom id on every atom or on none."""
     if any(tpl['atomid'] is not None and any(v is None for v in tpl['atomid']) for tpl in case['templates']):
         case = copy.deepcopy(case)
         for tpl in case['templates']:
             if tpl['atomid'] is not None and any(v is None for v in tpl['atomid']):
                 tpl['atomid'] = None
+    return case
+
+
+def _run_cli_order(case):
+    case = _cli_order_case(case)
     try:
         return _run(case, 'cli-order')
     except Violation as viol:
@@ -1054,7 +1059,7 @@ def _match_sort_after_naming(params, part_name, case, violation):
         return False
     if not case['deduplicate']:
         return False
-    facts = case_facts(case)
+    facts = case_facts(_cli_order_case(case))
     insts, canon = facts['insts'], facts['canon']
     # two molecules that are the same but for ignored attributes, and that the sorting rearranges differently
     return any(canon[i] == canon[j] and written_order(insts[i], True) != written_order(insts[j], True)
